@@ -2,6 +2,7 @@ package main
 
 import (
 	"fmt"
+	"go/types"
 	"sort"
 	"strings"
 
@@ -212,6 +213,7 @@ func lockDiscipline(c *Ctx, sel func(key string) bool) {
 		}
 	}
 	staleWrites(c, sel)
+	guardedContainerEscape(c, sel)
 	c.Count("field_accesses_classified", nAcc)
 	c.Count("fields_with_accesses", len(seenField))
 	// every table row selected must have been seen (anchor check)
@@ -311,6 +313,76 @@ func staleWrites(c *Ctx, sel func(key string) bool) {
 		})
 	}
 	c.Count("guarded_stores_checked_for_staleness", n)
+}
+
+// guardedContainerEscape: the value of a lock-guarded slice/map field (or a re-slicing of it, which
+// shares its backing array) must not leave the critical section through a return value: callers
+// would read elements while writers mutate them under the lock.
+func guardedContainerEscape(c *Ctx, sel func(key string) bool) {
+	p := c.P
+	fr := p.Freshness()
+	for _, fn := range p.Funcs {
+		if !p.InScope(fn) {
+			continue
+		}
+		instrsOf(fn, func(in ssa.Instruction) {
+			r, ok := in.(*ssa.Return)
+			if !ok {
+				return
+			}
+			for _, v := range r.Results {
+				switch v.Type().Underlying().(type) {
+				case *types.Slice, *types.Map:
+				default:
+					continue
+				}
+				// follow phis / re-slicings / conversions back to a field load
+				seen := map[ssa.Value]bool{}
+				var walk func(x ssa.Value, d int) *FieldRef
+				walk = func(x ssa.Value, d int) *FieldRef {
+					if d > 8 || seen[x] {
+						return nil
+					}
+					seen[x] = true
+					switch y := x.(type) {
+					case *ssa.Slice:
+						return walk(y.X, d+1)
+					case *ssa.ChangeType:
+						return walk(y.X, d+1)
+					case *ssa.Convert:
+						return walk(y.X, d+1)
+					case *ssa.Phi:
+						for _, e := range y.Edges {
+							if f := walk(e, d+1); f != nil {
+								return f
+							}
+						}
+					case *ssa.UnOp:
+						if f, ok := LoadedField(y); ok {
+							if _, guarded := tLock[f.Key()]; guarded && !fr.IsFresh(f.Base, 0) {
+								return &f
+							}
+						}
+						if a, isAlloc := y.X.(*ssa.Alloc); isAlloc { // spilled result / local
+							if refs := a.Referrers(); refs != nil {
+								for _, rr := range *refs {
+									if st, isSt := rr.(*ssa.Store); isSt && st.Addr == a {
+										if f := walk(st.Val, d+1); f != nil {
+											return f
+										}
+									}
+								}
+							}
+						}
+					}
+					return nil
+				}
+				if f := walk(v, 0); f != nil && (sel == nil || sel(f.Key())) {
+					c.Fail("guarded-container-escapes", p.FuncKey(fn)+"/"+f.Key(), p.InstrPos(r), fmt.Sprintf("%s returns %s itself (or a re-slicing sharing its backing array) instead of a copy: callers iterate it after the lock is released while add/remove rewrite the same array (data race; listings and health-check rounds see backends twice or sets that never existed)", p.FuncKey(fn), f.Key()))
+				}
+			}
+		})
+	}
 }
 
 // instrReaches: b can execute after a on some path.
